@@ -24,6 +24,8 @@ type ModuleRef struct {
 
 type Feat struct {
 	Funcs, Slices, Strings, Switch, ForRange, For3, FileOps, AppCalls, Input, MultiRet, Panic, Comments bool
+	Errors, Blanks                                                                                   bool // the error type with nil; the blank identifier where the parser accepts it
+	LibScoped                                                                                        bool // imported files: nested scopes (function bodies, blocks) do not refer to the file's globals (the pinned parser does not find them there)
 	MaxTop, MaxBody, MaxDepth, MaxExpr, MaxFuncs int
 	PublicFuncs                              bool // generate exported (capitalised) functions and globals
 	AdvNames                                 bool // identifiers from the adversarial pool (collision families, case twins, helper look-alikes, shell words)
@@ -38,7 +40,7 @@ func RandomFeat(r *Rng) Feat {
 	f := Feat{
 		Funcs: r.Chance(75), Slices: r.Chance(55), Strings: r.Chance(75), Switch: r.Chance(40),
 		ForRange: r.Chance(40), For3: r.Chance(60), FileOps: r.Chance(30), AppCalls: r.Chance(25),
-		Input: r.Chance(12), MultiRet: r.Chance(40), Panic: r.Chance(20), Comments: r.Chance(30), NoStrLit: r.Chance(12), AdvNames: r.Chance(30),
+		Input: r.Chance(12), MultiRet: r.Chance(40), Panic: r.Chance(20), Comments: r.Chance(30), NoStrLit: r.Chance(12), AdvNames: r.Chance(30), Errors: r.Chance(35), Blanks: r.Chance(35),
 		MaxTop: r.Range(1, 8), MaxBody: r.Range(1, 4), MaxDepth: r.Range(1, 3), MaxExpr: r.Range(1, 3), MaxFuncs: r.Range(0, 4),
 	}
 	if r.Chance(20) {
@@ -319,6 +321,9 @@ func (g *pgen) expr(typ string, env []variable, d int) string {
 		case 0, 1, 2:
 			return fmt.Sprintf("%s %s %s", g.expr("int", env, d+1), r.Pick([]string{"==", "!=", "<", "<=", ">", ">="}), g.expr("int", env, d+1))
 		case 3:
+			if g.f.Errors && r.Chance(45) {
+				return fmt.Sprintf("%s %s nil", g.expr("error", env, d+1), r.Pick([]string{"!=", "!=", "=="}))
+			}
 			if g.f.Strings {
 				return fmt.Sprintf("%s %s %s", g.expr("string", env, d+1), r.Pick([]string{"==", "!="}), g.expr("string", env, d+1))
 			}
@@ -390,6 +395,18 @@ func (g *pgen) expr(typ string, env []variable, d int) string {
 			}
 		}
 		return g.strLit()
+	case "error":
+		switch {
+		case len(vs) > 0 && r.Chance(40):
+			return r.Pick(vs)
+		case r.Chance(25) && !leaf:
+			if fs := g.funcsRet("error"); len(fs) > 0 {
+				return g.callExpr(Pick(r, fs), env, d)
+			}
+		case r.Chance(40):
+			return g.strLit()
+		}
+		return "nil"
 	case "[]int", "[]bool", "[]string":
 		if len(vs) > 0 && r.Chance(50) {
 			return r.Pick(vs)
@@ -410,6 +427,9 @@ func (g *pgen) expr(typ string, env []variable, d int) string {
 
 func (g *pgen) types() []string {
 	ts := []string{"int", "int", "bool"}
+	if g.f.Errors {
+		ts = append(ts, "error")
+	}
 	if g.f.Strings {
 		ts = append(ts, "string", "string")
 	}
@@ -525,7 +545,15 @@ func (g *pgen) block(env []variable, n int, depth int, inFunc, inLoop bool, uppe
 				}
 				iv, vv := g.fresh("i"), g.fresh("e")
 				e2 := append(env, variable{iv, "int"})
-				if r.Chance(70) {
+				if g.f.Blanks && r.Chance(45) {
+					// the blank identifier, as in Go (no "_" may be live in an enclosing scope: only one per nesting)
+					if r.Chance(70) {
+						g.line("for _, %s := range %s {", vv, it)
+						e2 = append(append([]variable{}, env...), variable{vv, el})
+					} else {
+						g.line("for %s, _ := range %s {", iv, it)
+					}
+				} else if r.Chance(70) {
 					g.line("for %s, %s := range %s {", iv, vv, it)
 					e2 = append(e2, variable{vv, el})
 				} else {
@@ -560,15 +588,30 @@ func (g *pgen) block(env []variable, n int, depth int, inFunc, inLoop bool, uppe
 				continue
 			}
 			t := Pick(r, []string{"int", "bool", "string"})
-			switch r.Intn(3) {
+			switch r.Intn(4) {
 			case 0:
 				g.line("switch {")
 				t = "bool"
+			case 1:
+				if r.Chance(40) {
+					g.line("switch true {")
+					t = "bool"
+					break
+				}
+				// the header is a call (evaluated once, whatever the number of cases)
+				if fs := g.funcsRet(t); len(fs) > 0 {
+					g.line("switch %s {", g.callExpr(Pick(r, fs), env, 1))
+				} else if g.f.Strings {
+					t = "int"
+					g.line("switch len(%s) {", g.expr("string", env, 1))
+				} else {
+					g.line("switch %s {", g.expr(t, env, 1))
+				}
 			default:
 				g.line("switch %s {", g.expr(t, env, 1))
 			}
 			g.swDepth++
-			for c := r.Range(0, 3); c > 0; c-- {
+			for c := r.Pick2([]int{0, 1, 2, 2, 3, 3}); c > 0; c-- {
 				g.line("case %s:", g.expr(t, env, 1))
 				g.indent++
 				g.block(env, r.Range(0, g.f.MaxBody), depth+1, inFunc, inLoop, false)
@@ -648,9 +691,16 @@ func (g *pgen) block(env []variable, n int, depth int, inFunc, inLoop bool, uppe
 				for j := range names {
 					names[j] = g.fresh("v")
 				}
+				blank := -1
+				if g.f.Blanks && len(names) > 1 && r.Chance(30) {
+					blank = r.Intn(len(names))
+					names[blank] = "_"
+				}
 				g.line("%s := %s", strings.Join(names, ", "), g.callExpr(f, env, 0))
 				for j, nme := range names {
-					env = append(env, variable{nme, f.Rets[j]})
+					if j != blank {
+						env = append(env, variable{nme, f.Rets[j]})
+					}
 				}
 			}
 		case k < 21: // panic
@@ -660,7 +710,18 @@ func (g *pgen) block(env []variable, n int, depth int, inFunc, inLoop bool, uppe
 		default: // multi definition
 			a, b := g.fresh("v"), g.fresh("v")
 			ta, tb := Pick(r, g.types()), Pick(r, g.types())
-			g.line("%s, %s := %s, %s", a, b, g.expr(ta, env, 1), g.expr(tb, env, 1))
+			switch r.Intn(6) {
+			case 0: // several names, one type, default values
+				tb = ta
+				g.line("var %s, %s %s", a, b, ta)
+			case 1:
+				tb = ta
+				g.line("var %s, %s %s = %s, %s", a, b, ta, g.expr(ta, env, 1), g.expr(ta, env, 1))
+			case 2:
+				g.line("var %s, %s = %s, %s", a, b, g.expr(ta, env, 1), g.expr(tb, env, 1))
+			default:
+				g.line("%s, %s := %s, %s", a, b, g.expr(ta, env, 1), g.expr(tb, env, 1))
+			}
 			env = append(env, variable{a, ta}, variable{b, tb})
 		}
 	}
@@ -766,6 +827,9 @@ func (g *pgen) funcDef(globals []variable, public bool) FuncSig {
 		}
 	}
 	env := append([]variable{}, globals...)
+	if g.f.LibScoped {
+		env = nil
+	}
 	ps := []string{}
 	for n := r.Intn(4); n > 0; n-- {
 		t := Pick(r, g.types())
@@ -896,7 +960,11 @@ func GenProgram(r *Rng, f Feat, imports []ModuleRef, tag string) (string, []Func
 			}
 		}
 	}
-	env = g.block(env, r.Range(1, f.MaxTop), 0, false, false, f.PublicFuncs)
+	topDepth := 0
+	if f.LibScoped {
+		topDepth = g.f.MaxDepth // no nested blocks at the top level of an imported file
+	}
+	env = g.block(env, r.Range(1, f.MaxTop), topDepth, false, false, f.PublicFuncs)
 	// most functions get called at least once: unused ones are pruned before the
 	// converters see them, so they would exercise the parser only
 	if r.Chance(70) {
